@@ -120,7 +120,8 @@ func (n Number) Int() (int64, error) {
 	return 0, errors.New("signed integer overflow")
 }
 
-// addQuantum adds the smallest quantum to n without checking overflow.
+// addQuantum adds the smallest quantum to n. The result saturates at the
+// largest magnitude a Number can hold instead of wrapping around.
 func (n Number) addQuantum(i uint64) Number {
 	switch n.Negative {
 	case true:
@@ -131,7 +132,11 @@ func (n Number) addQuantum(i uint64) Number {
 			n.Value -= i
 		}
 	case false:
-		n.Value += i
+		if n.Value > math.MaxUint64-i {
+			n.Value = math.MaxUint64
+		} else {
+			n.Value += i
+		}
 	}
 	return n
 }
